@@ -157,6 +157,24 @@ func main() {
 			{Op: "prepare", Key: 5, Parent: 4, L: snapx.Labels{T: -1, U: 3, E: 1}},
 			{Op: "cleanup"},
 		}},
+		// snapshots.WithParent: rebase at Commit (the parent may be younger than the child), contradicting / missing /
+		// uncommitted parent; WithParent travelling into the internal commit of a remote Prepare (missing parent:
+		// commit fails after the Mount; existing: the remote snapshot is rebased)
+		{Ops: []snapx.Op{
+			{Op: "prepare", Key: 0, Parent: -1, L: L(-1)},
+			{Op: "prepare", Key: 1, Parent: -1, L: L(2), MOK: true},
+			{Op: "commit", Name: 3, Key: 0, L: snapx.Labels{T: -1, W: 2 + 1}},
+			{Op: "prepare", Key: 4, Parent: 3, L: L(-1)},
+			{Op: "mounts", Key: 4},
+			{Op: "commit", Name: 5, Key: 4, L: snapx.Labels{T: -1, W: 2 + 1}},
+			{Op: "commit", Name: 5, Key: 4, L: snapx.Labels{T: -1, W: 7 + 1}},
+			{Op: "prepare", Key: 6, Parent: -1, L: snapx.Labels{T: 7, W: 6 + 1}, MOK: true},
+			{Op: "prepare", Key: 0, Parent: -1, L: snapx.Labels{T: 1, W: 0 + 1}, MOK: true},
+			{Op: "prepare", Key: 8, Parent: -1, L: snapx.Labels{T: 9, W: 3 + 1}, MOK: true},
+			{Op: "prepare", Key: 10, Parent: 9, L: L(-1)},
+			{Op: "remove", Key: 3},
+			{Op: "cleanup"},
+		}},
 		// cleanup before anything was ever created; errors of create
 		{Ops: []snapx.Op{
 			{Op: "cleanup"},
